@@ -640,6 +640,26 @@ theorem totalFrames01_eq (items : List Item01) : totalFrames01 items = ((recs01 
     simp only [totalFrames01, List.map_cons, List.sum_cons, recs01, List.flatMap_cons, List.map_append, List.sum_append] at ih ⊢
     rw [ih, Item01.totalFrames_eq]
 
+/-- `locate` in closed form. -/
+theorem locate_closed (pre : List (Int × Int)) (p n : Int) (post : List (Int × Int)) (off : Int)
+    (hpre : ∀ r ∈ pre, 0 ≤ r.2) (h0 : 0 ≤ off) (h1 : off < n) :
+    locate (pre ++ (p, n) :: post) ((pre.map (·.2)).sum + off) = .ok (p, off) := by
+  induction pre with
+  | nil => simp [locate, h1]
+  | cons r pre ih =>
+    obtain ⟨rp, rn⟩ := r
+    have hs : 0 ≤ (pre.map (·.2)).sum := by
+      apply sum_nonneg_of
+      intro x hx
+      obtain ⟨r, hr, rfl⟩ := List.mem_map.1 hx
+      exact hpre r (List.mem_cons_of_mem _ hr)
+    simp only [List.cons_append, List.map_cons, List.sum_cons, locate]
+    have : ¬ (rn + (pre.map (·.2)).sum + off < rn) := by omega
+    simp only [this, if_false]
+    have e : rn + (pre.map (·.2)).sum + off - rn = (pre.map (·.2)).sum + off := by omega
+    rw [e]
+    exact ih (fun r hr => hpre r (List.mem_cons_of_mem _ hr))
+
 /-! ### float abstraction (`Rat`, `isclose` as a parameter) -/
 namespace F
 
